@@ -106,6 +106,8 @@ def gen_bn(rng, tier):
             if connected(n, edges) and all(sum(1 for (a, b) in edges if b == v) <= 3 for v in range(n)):
                 break
     cards = [rng.choice([2, 2, 3]) for _ in range(n)]
+    if rng.random() < 0.12:
+        cards[rng.randrange(n)] = 1          # a variable with a single state
     zeros = rng.random() < 0.4
     factors = []
     for v in range(n):
@@ -152,6 +154,8 @@ def gen_mn(rng, tier, kind="mn"):
             uniq.append(s)
     scopes = uniq
     cards = [rng.choice([2, 2, 3]) for _ in range(n)]
+    if rng.random() < 0.12:
+        cards[rng.randrange(n)] = 1
     zeros = rng.random() < 0.4
     factors = []
     for s in scopes:
@@ -159,7 +163,114 @@ def gen_mn(rng, tier, kind="mn"):
         for v in s:
             size *= cards[v]
         factors.append({"scope": list(s), "values": [F2(x) for x in rand_table(rng, size, zeros)]})
-    return {"kind": kind, "n": n, "cards": cards, "factors": factors}
+    case = {"kind": kind, "n": n, "cards": cards, "factors": factors}
+    scale_case(rng, case)
+    return case
+
+
+def scale_case(rng, case):
+    """magnitudes: with probability 1/3 every factor is multiplied by its own power of two (exact in floats),
+    exponents up to +-80 with a total below 300 bits, and one state of one variable is damped by 2^-40 in one
+    factor, so that beliefs live around 1e-60..1e+20 and some evidence has probability ~1e-12 of the rest"""
+    if rng.random() >= 0.34:
+        return
+    budget = 300
+    exps = []
+    for fd in case["factors"]:
+        e = rng.randint(-80, 80)
+        e = max(-budget, min(budget, e))
+        budget -= abs(e)
+        exps.append(e)
+        sc = Fraction(2) ** e
+        fd["values"] = [F2(Fraction(a, b) * sc) for a, b in fd["values"]]
+    fd = rng.choice(case["factors"])
+    cards = case["cards"]
+    pos = rng.randrange(len(fd["scope"]))
+    v = fd["scope"][pos]
+    if cards[v] >= 2:
+        st = rng.randrange(cards[v])
+        stride = 1
+        for w in fd["scope"][pos + 1:]:
+            stride *= cards[w]
+        vals = [Fraction(a, b) for a, b in fd["values"]]
+        for k in range(len(vals)):
+            if (k // stride) % cards[v] == st:
+                vals[k] = vals[k] * Fraction(1, 2 ** 40)
+        fd["values"] = [F2(x) for x in vals]
+    case["scaled"] = exps
+
+
+CYC_SHAPES = [
+    ("mn", 5, [[0, 1], [1, 2], [2, 3], [3, 4], [4, 0]]),
+    ("mn", 6, [[0, 1], [1, 2], [2, 3], [3, 4], [4, 5], [5, 0]]),
+    ("mn", 6, [[0, 1], [1, 2], [3, 4], [4, 5], [0, 3], [1, 4], [2, 5]]),                 # 2x3 grid
+    ("mn", 6, [[0, 1], [1, 2], [2, 3], [3, 0], [2, 4], [4, 5], [5, 3]]),                 # two squares sharing an edge
+    ("bn", 6, [(0, 1), (1, 2), (2, 3), (0, 4), (4, 5), (5, 3)]),
+    ("bn", 5, [(0, 1), (1, 2), (2, 3), (0, 4), (4, 3)]),
+    ("fg", 5, [[0, 1], [1, 2], [2, 3], [3, 4], [4, 0]]),
+]
+
+
+def gen_cyc(rng, idx):
+    """graphs that need fill-ins (chordless cycles of length >= 5, grids): run with EVERY triangulation
+    heuristic H1..H6 and an explicit elimination order; unequal cardinalities so that the heuristics differ"""
+    kind, n, shape = CYC_SHAPES[idx % len(CYC_SHAPES)]
+    perm = list(range(n))
+    rng.shuffle(perm)
+    cards = [rng.choice([2, 3, 2, 4]) for _ in range(n)]
+    if kind == "bn":
+        edges = [(perm[a], perm[b]) for a, b in shape]
+        factors = []
+        for v in range(n):
+            pa = [a for (a, b) in edges if b == v]
+            ncol = 1
+            for p in pa:
+                ncol *= cards[p]
+            cols = [common.rand_column(rng, cards[v], zeros=False) for _ in range(ncol)]
+            factors.append({"scope": [v] + pa, "values": [F2(cols[c][s]) for s in range(cards[v]) for c in range(ncol)]})
+        return {"kind": "bn", "n": n, "cards": cards, "edges": [list(e) for e in edges], "factors": factors, "cyc": True}
+    factors = []
+    for sc in shape:
+        sc = [perm[a] for a in sc]
+        size = 1
+        for v in sc:
+            size *= cards[v]
+        factors.append({"scope": sc, "values": [F2(x) for x in rand_table(rng, size, False)]})
+    return {"kind": kind, "n": n, "cards": cards, "factors": factors, "cyc": True}
+
+
+def gen_wide(rng):
+    """one factor over 9 binary variables (a set of small ints iterates in increasing order only below 8)
+    plus pendant pair factors; integer variable names"""
+    n = rng.choice([10, 11])
+    big = list(range(9))
+    rng.shuffle(big)
+    scopes = [big]
+    for v in range(9, n):
+        scopes.append([rng.randrange(9), v])
+    cards = [2] * n
+    factors = []
+    for sc in scopes:
+        factors.append({"scope": list(sc), "values": [F2(x) for x in rand_table(rng, 2 ** len(sc), True)]})
+    return {"kind": "mn", "n": n, "cards": cards, "factors": factors, "wide": True}
+
+
+def gen_single(rng, kind):
+    c = rng.choice([1, 2, 3])
+    if kind == "bn":
+        col = common.rand_column(rng, c, zeros=False)
+        return {"kind": "bn", "n": 1, "cards": [c], "edges": [], "factors": [{"scope": [0], "values": [F2(x) for x in col]}]}
+    return {"kind": "mn", "n": 1, "cards": [c], "factors": [{"scope": [0], "values": [F2(x) for x in rand_table(rng, c, False)]}]}
+
+
+def gen_reject(rng, what):
+    """models BeliefPropagation must refuse: two components (the library rejects disconnected clique trees by
+    design), or a parent whose state names are listed in another order by its child's CPD"""
+    if what == "disc-bn":
+        return {"kind": "reject", "what": what, "n": 3, "cards": [2, 2, 2], "edges": [[0, 1]], "factors": []}
+    if what == "disc-mn":
+        return {"kind": "reject", "what": what, "n": 4, "cards": [2, 2, 2, 2], "edges": [], "factors": []}
+    return {"kind": "reject", "what": "state-order", "n": 2, "cards": [2, 2], "edges": [[0, 1]], "factors": []}
 
 
 def gen_jt(rng, tier, rip=True, multi=False):
@@ -213,8 +324,10 @@ def gen_jt(rng, tier, rip=True, multi=False):
         rng.shuffle(factors)
     order = list(range(len(tedges)))
     rng.shuffle(order)
-    return {"kind": "jt", "n": nv, "cards": cards, "cliques": cliques, "tedges": [tedges[i] for i in order],
+    case = {"kind": "jt", "n": nv, "cards": cards, "cliques": cliques, "tedges": [tedges[i] for i in order],
             "factors": factors, "rip": True, "multi": bool(multi)}
+    scale_case(rng, case)
+    return case
 
 
 def gen_jt_nonrip(rng):
@@ -230,10 +343,15 @@ def gen_jt_nonrip(rng):
             "rip": False}
 
 
+SSTYLES = ["str", "str", "int", "mixed", "perm", "onebased", "bool"]
+VSTYLES = common.NAME_STYLES + ["substr"]
+HEUR = ["H1", "H2", "H3", "H4", "H5", "H6", "order"]
+
+
 def cases(tier, seed):
     rng = random.Random(seed)
     hs = HASHSEEDS[tier]
-    nmodels = {"quick": (36, 22, 10, 16, 3), "thorough": (160, 90, 40, 60, 6)}[tier]
+    nmodels = {"quick": (30, 20, 8, 14, 2), "thorough": (160, 90, 40, 60, 6)}[tier]
     models = []
     for _ in range(nmodels[0]):
         models.append(gen_bn(rng, tier))
@@ -245,12 +363,26 @@ def cases(tier, seed):
         models.append(gen_jt(rng, tier, multi=(i % 2 == 1)))
     for _ in range(nmodels[4]):
         models.append(gen_jt_nonrip(rng))
+    for _ in range(1 if tier == "quick" else 4):
+        models.append(gen_wide(rng))
+    c0 = rng.randrange(len(CYC_SHAPES))
+    for i in range(3 if tier == "quick" else 2 * len(CYC_SHAPES)):
+        models.append(gen_cyc(rng, c0 + i))
+    models.append(gen_single(rng, "bn"))
+    models.append(gen_single(rng, "mn"))
+    for what in ("disc-bn", "disc-mn", "state-order"):
+        models.append(gen_reject(rng, what))
     out = []
     for mi, m in enumerate(models):
-        m["vstyle"] = rng.choice(common.NAME_STYLES)
-        m["sstyle"] = rng.choice(["str", "str", "int", "mixed"])
+        m["vstyle"] = "int" if m.get("wide") else rng.choice(VSTYLES)
+        m["sstyle"] = rng.choice(SSTYLES)
         m["nameseed"] = rng.randint(0, 10 ** 9)
         m["qseed"] = rng.randint(0, 10 ** 9)
+        m["backend"] = "torch" if mi % 6 == 5 and not m.get("scaled") else "numpy"
+        # which of the optional streams run on this model (every stream runs in both tiers)
+        m["session"] = (mi % 2 == 0)
+        k = 2 if tier == "quick" else 7
+        m["heur"] = list(HEUR) if m.get("cyc") else rng.sample(HEUR, k)
         for h in hs:
             c = dict(m)
             c["hashseed"] = h
@@ -273,6 +405,14 @@ def shrink(case):
 # ------------------------------------------------------------------ names
 def var_names(case):
     rng = random.Random(case["nameseed"])
+    if case["vstyle"] == "substr":      # one name a substring / prefix of another
+        pool = ["x1", "x10", "x", "x11", "1x", "G", "G2", "G20", "x1x", "0", "00", "x_", "_x"]
+        rng.shuffle(pool)
+        return pool[:case["n"]]
+    if case["vstyle"] == "int" and case["n"] > 8:
+        pool = list(range(0, case["n"] + 3))
+        rng.shuffle(pool)
+        return pool[:case["n"]]
     return common.node_names(rng, case["n"], case["vstyle"])
 
 
@@ -284,11 +424,18 @@ def state_names(case):
         st = case["sstyle"]
         if st == "int":
             out.append(list(range(c)))
+        elif st == "perm":              # integers that are not their positions
+            out.append([[0], [1, 0], [2, 0, 1], [3, 1, 0, 2]][c - 1])
+        elif st == "onebased":
+            out.append(list(range(1, c + 1)))
+        elif st == "bool":
+            out.append([False, True, "u", "w"][:c])
         elif st == "str":
-            pool = rng.choice([["x", "y", "z"], ["lo", "mid", "hi"], ["s0", "s1", "s2"], ["no", "yes", "maybe"]])
+            pool = rng.choice([["x", "y", "z", "w"], ["lo", "mid", "hi", "top"], ["s0", "s1", "s2", "s3"],
+                               ["no", "yes", "maybe", "never"]])
             out.append(pool[:c])
         else:
-            pool = ["a", 7, "c"] if rng.random() < 0.5 else [5, "b", 9]
+            pool = ["a", 7, "c", 11] if rng.random() < 0.5 else [5, "b", 9, "d"]
             out.append(pool[:c])
     return out
 
@@ -337,12 +484,18 @@ def build(case):
                               state_names={names[v]: sts[v] for v in sc})
 
     kind = case["kind"]
+    # insertion orders of nodes and of CPDs / factors are part of the input
+    orng = random.Random(case["nameseed"] + 5)
+    node_order = list(range(case["n"]))
+    orng.shuffle(node_order)
+    fac_order = list(case["factors"])
+    orng.shuffle(fac_order)
     if kind == "bn":
         from pgmpy.models import BayesianNetwork
         m = BayesianNetwork()
-        m.add_nodes_from([names[v] for v in range(case["n"])])
+        m.add_nodes_from([names[v] for v in node_order])
         m.add_edges_from([(names[a], names[b]) for a, b in case["edges"]])
-        for fd in case["factors"]:
+        for fd in fac_order:
             v, pa = fd["scope"][0], fd["scope"][1:]
             vals = np.array([float(Fraction(a, b)) for a, b in fd["values"]]).reshape(cards[v], -1)
             m.add_cpds(TabularCPD(names[v], cards[v], vals, evidence=[names[p] for p in pa] or None,
@@ -351,18 +504,18 @@ def build(case):
     elif kind == "mn":
         from pgmpy.models import MarkovNetwork
         m = MarkovNetwork()
-        m.add_nodes_from([names[v] for v in range(case["n"])])
+        m.add_nodes_from([names[v] for v in node_order])
         for fd in case["factors"]:
             sc = fd["scope"]
             for i in range(len(sc)):
                 for j in range(i + 1, len(sc)):
                     m.add_edge(names[sc[i]], names[sc[j]])
-        m.add_factors(*[mk_factor(fd) for fd in case["factors"]])
+        m.add_factors(*[mk_factor(fd) for fd in fac_order])
     elif kind == "fg":
         from pgmpy.models import FactorGraph
         m = FactorGraph()
-        m.add_nodes_from([names[v] for v in range(case["n"])])
-        fs = [mk_factor(fd) for fd in case["factors"]]
+        m.add_nodes_from([names[v] for v in node_order])
+        fs = [mk_factor(fd) for fd in fac_order]
         m.add_factors(*fs)
         for f in fs:
             for v in f.variables:
@@ -375,7 +528,7 @@ def build(case):
             m.add_node(c)
         for a, b in case["tedges"]:
             m.add_edge(cl[a], cl[b])
-        m.add_factors(*[mk_factor(fd) for fd in case["factors"]])
+        m.add_factors(*[mk_factor(fd) for fd in fac_order])
     return m, names, sts, sbn
 
 
@@ -432,12 +585,22 @@ def brute_table(joint, cards, keep, ev=None, weights=None, op="sum"):
 
 
 def close_tab(impl, model):
+    """every entry within 1e-9 RELATIVE to the exact value of that entry (all arithmetic is on non-negative
+    numbers: no cancellation); an exact zero of the model must be (numerically) zero: below 1e-9 of the table's
+    smallest non-zero entry"""
     if len(impl) != len(model):
         return False
-    scale = max([abs(float(x)) for x in model] + [1e-300])
+    nz = [abs(float(x)) for x in model if x != 0]
+    floor = (min(nz) if nz else 1.0) * TOL
     for a, b in zip(impl, model):
         a = float(a)
-        if a != a or abs(a - float(b)) > TOL * scale:
+        b = float(b)
+        if a != a:
+            return False
+        if b == 0:
+            if abs(a) > floor:
+                return False
+        elif abs(a - b) > TOL * abs(b):
             return False
     return True
 
@@ -454,7 +617,677 @@ def normalise(tab):
 
 
 # ------------------------------------------------------------------ the case
+class Ctx:
+    pass
+
+
+def set_backend(case):
+    from pgmpy import config
+    if case.get("backend") == "torch":
+        import torch
+        config.set_backend("torch", device="cpu", dtype=torch.float64)
+    else:
+        config.set_backend("numpy")
+
+
+def snapshot(m, kind, sbn):
+    """deep, canonical picture of a model: nodes, edges, every factor/CPD as (scope, table in OUR state order)"""
+    if kind == "bn":
+        fs = [c.to_factor() for c in m.get_cpds()]
+    else:
+        fs = list(m.get_factors())
+    tabs = []
+    for f in fs:
+        fv = list(f.variables)
+        tabs.append((tuple(map(repr, fv)), tuple(table(f, fv, sbn))))
+    nodes = sorted(map(repr, m.nodes()))
+    edges = sorted(tuple(sorted((repr(a), repr(b)))) for a, b in m.edges()) if kind != "bn" else \
+        sorted((repr(a), repr(b)) for a, b in m.edges())
+    return nodes, edges, sorted(tabs)
+
+
+def cal_check(bp, cx, ops=(("sum", "c02_calibrate", "calibrate"), ("max", "c02_max_calibrate", "max_calibrate")),
+              label=""):
+    """calibrate / max_calibrate on the engine and compare every belief with the model on the same tree and with
+    brute force; returns (bad | None, cliques)"""
+    names, sbn, vid, cards, joint, key, tags, rip = cx.names, cx.sbn, cx.vid, cx.cards, cx.joint, cx.key, cx.tags, cx.rip
+    try:
+        cliques, edges, adj, pots = extract_tree(bp.junction_tree, vid, sbn)
+    except StateNameMismatch as e:
+        return bad("impl!=spec:clique-potential-state-names", {"error": str(e), "at": label}, key=key, tags=tags), None
+    req = [cards, [[vid[v] for v in c] for c in cliques], edges, adj, pots]
+    for op, entry, meth in ops:
+        rep = cx.drv.call(entry, req)
+        jt_ok, sched_ok, conv, mbel, msep, bbel, bsep = rep
+        if not sched_ok:
+            return bad("checker:sched_chk", {"cliques": req[1], "edges": edges, "adj": adj}, key=key, tags=tags), None
+        if bool(jt_ok) != bool(rip):
+            return bad("checker:jt_chk", {"jt_chk": jt_ok, "expected": rip, "cliques": req[1], "edges": edges,
+                                          "at": label}, key=key, tags=tags), None
+        getattr(bp, meth)()
+        cb = bp.get_clique_beliefs()
+        sb = bp.get_sepset_beliefs()
+        if set(cb.keys()) != set(cliques):
+            return bad("impl!=model:clique-belief-keys", {"impl": [list(c) for c in cb.keys()]}, key=key, tags=tags), None
+        for i, c in enumerate(cliques):
+            try:
+                it = table(cb[c], list(c), sbn)
+            except StateNameMismatch as e:
+                return bad("impl!=spec:belief-scope-or-state-names", {"op": op, "clique": i, "error": str(e),
+                                                                      "at": label}, key=key, tags=tags), None
+            mt = fr(mbel[i])
+            if not close_tab(it, mt):
+                return bad("impl!=model:clique-belief", {"op": op, "clique": [vid[v] for v in c], "impl": it,
+                                                           "model": [float(x) for x in mt], "at": label}, key=key, tags=tags), None
+            if rip:
+                bt = fr(bbel[i])
+                pt = brute_table(joint, cards, [vid[v] for v in c], op=op)
+                if bt != pt:
+                    return bad("impl!=spec:clique-potentials-product", {"op": op, "clique": [vid[v] for v in c],
+                                                                        "at": label}, key=key, tags=tags), None
+                if mt != bt:
+                    return bad("model!=spec:clique-belief-not-marginal", {"op": op, "clique": [vid[v] for v in c],
+                               "model": [float(x) for x in mt], "brute": [float(x) for x in bt]}, key=key, tags=tags), None
+                if not close_tab(it, bt):
+                    return bad("impl!=spec:clique-belief-not-marginal", {"op": op, "clique": [vid[v] for v in c],
+                               "impl": it, "brute": [float(x) for x in bt], "at": label}, key=key, tags=tags), None
+        if rip and not conv:
+            return bad("model!=spec:not-converged", {"op": op}, key=key, tags=tags), None
+        if len(sb) != len(edges):
+            return bad("impl!=model:sepset-keys", {"impl": len(sb), "model": len(edges)}, key=key, tags=tags), None
+        for k, (i, j) in enumerate(edges):
+            S, mu = msep[k]
+            skey = frozenset([cliques[i], cliques[j]])
+            if skey not in sb or sb[skey] is None or not mu:
+                return bad("impl!=model:sepset-missing", {"op": op, "edge": [i, j], "at": label}, key=key, tags=tags), None
+            Sn = [names[v] for v in S]
+            if set(Sn) != set(cliques[i]) & set(cliques[j]):
+                return bad("model-inconsistent:sepset-scope", {"edge": [i, j]}, key=key, tags=tags), None
+            try:
+                it = table(sb[skey], Sn, sbn)
+            except StateNameMismatch as e:
+                return bad("impl!=spec:sepset-scope-or-state-names", {"op": op, "edge": [i, j], "error": str(e)},
+                           key=key, tags=tags), None
+            mt = fr(mu[0])
+            if not close_tab(it, mt):
+                return bad("impl!=model:sepset-belief", {"op": op, "edge": [i, j], "impl": it,
+                                                           "model": [float(x) for x in mt], "at": label}, key=key, tags=tags), None
+            if rip and mt != fr(bsep[k]):
+                return bad("model!=spec:sepset-belief-not-marginal", {"op": op, "edge": [i, j]}, key=key, tags=tags), None
+            oper = "marginalize" if op == "sum" else "maximize"
+            if rip:
+                for c in (cliques[i], cliques[j]):
+                    mg = getattr(cb[c], oper)([v for v in c if v not in Sn], inplace=False)
+                    if not close_tab(table(mg, Sn, sbn), mt):
+                        return bad("impl!=spec:neighbours-disagree-on-sepset", {"op": op, "edge": [i, j]},
+                                   key=key, tags=tags), None
+    return None, cliques
+
+
+def query_check(bp, cx, Q, ev, jointflag, ve=None, label="", model_side=True, evidence_none=False):
+    """one posterior query on the engine: the model's answer on the engine's current tree must equal brute force
+    exactly; pgmpy's answer, brute force and VariableElimination must agree; the caller's arguments must come back
+    unchanged; the result carries the model's state names.  Returns bad | None | 'zero' (P(evidence)=0)."""
+    names, sts, sbn, vid, cards, joint, key, tags = cx.names, cx.sts, cx.sbn, cx.vid, cx.cards, cx.joint, cx.key, cx.tags
+    Qn = [names[v] for v in Q]
+    evn = {names[v]: sts[v][s] for v, s in ev.items()}
+    detail = {"Q": Q, "evidence": {str(v): s for v, s in ev.items()}, "joint": jointflag, "at": label}
+    bt = brute_table(joint, cards, Q, ev=ev)
+    bnorm = normalise(bt)
+    if model_side:
+        try:
+            cl2, ed2, adj2, pots2 = extract_tree(bp.junction_tree, vid, sbn)
+        except StateNameMismatch as e:
+            return bad("impl!=spec:clique-potential-state-names", {"error": str(e), "at": label}, key=key, tags=tags)
+        req2 = [cards, [[vid[v] for v in c] for c in cl2], ed2, adj2, pots2, Q, [[v, s] for v, s in ev.items()]]
+        cert, mtab, mper, mbrute, msub = cx.drv.call("c02_query", req2)
+        mtab = fr(mtab)
+        if not cert:
+            return bad("checker:query-certificate", dict(detail, sub=msub), key=key, tags=tags)
+        if fr(mbrute) != bt:
+            return bad("model-inconsistent:brute", detail, key=key, tags=tags)
+        if mtab != bt:
+            return bad("model!=spec:query", dict(detail, model=[float(x) for x in mtab], brute=[float(x) for x in bt]),
+                       key=key, tags=tags)
+    else:
+        mper = None
+    if bnorm is None:
+        return "zero"
+    Qarg = list(Qn)
+    evarg = None if (evidence_none and not evn) else dict(evn)
+    Qsnap, evsnap = list(Qarg), (None if evarg is None else dict(evarg))
+    try:
+        res = bp.query(Qarg, evidence=evarg, joint=jointflag, show_progress=False)
+    except Exception as e:  # every query with evidence by name must succeed
+        return bad("impl!=spec:query-raises", dict(detail, error=repr(e)[:300]), key=key, tags=tags)
+    if Qarg != Qsnap or evarg != evsnap or (evarg is not None and list(evarg) != list(evsnap)):
+        return bad("impl!=spec:query-mutates-its-arguments", dict(detail, variables=repr(Qarg), evidence=repr(evarg)),
+                   key=key, tags=tags)
+    try:
+        if jointflag:
+            it = table(res, Qn, sbn)
+            if not close_tab(it, bnorm):
+                return bad("impl!=spec:query", dict(detail, impl=it, brute=[float(x) for x in bnorm]), key=key, tags=tags)
+            if ve is not None:
+                # the SAME argument objects are reused for the second engine
+                vres = ve.query(Qarg, evidence=evarg, joint=True, show_progress=False)
+                vt = normalise([Fraction(x) for x in table(vres, Qn, sbn)])
+                if vt is None or not close_tab(it, vt):
+                    return bad("impl!=VE:query", dict(detail, impl=it), key=key, tags=tags)
+        else:
+            if set(res.keys()) != set(Qn):
+                return bad("impl!=spec:query-keys", detail, key=key, tags=tags)
+            for pos_, v in enumerate(Q):
+                it = table(res[names[v]], [names[v]], sbn)
+                b1 = normalise(brute_table(joint, cards, [v], ev=ev))
+                if mper is not None and normalise(fr(mper[pos_])) != b1:
+                    return bad("model!=spec:query-marginal", dict(detail, var=v), key=key, tags=tags)
+                if not close_tab(it, b1):
+                    return bad("impl!=spec:query-marginal", dict(detail, var=v, impl=it,
+                                                                  brute=[float(x) for x in b1]), key=key, tags=tags)
+    except StateNameMismatch as e:
+        return bad("impl!=spec:result-state-names", dict(detail, error=str(e)), key=key, tags=tags)
+    return None
+
+
+def map_check(bp, cx, Q, ev, label="", variables_none=False):
+    names, sts, cards, joint, key, tags = cx.names, cx.sts, cx.cards, cx.joint, cx.key, cx.tags
+    Qn = [names[v] for v in Q]
+    evn = {names[v]: sts[v][s] for v, s in ev.items()}
+    detail = {"Q": Q, "evidence": {str(v): s for v, s in ev.items()}, "at": label, "variables_none": variables_none}
+    bnorm = normalise(brute_table(joint, cards, Q, ev=ev))
+    if bnorm is None:
+        return None
+    try:
+        if variables_none:
+            mp = bp.map_query(evidence=dict(evn) if evn else None, show_progress=False)
+        else:
+            mp = bp.map_query(list(Qn), evidence=dict(evn), show_progress=False)
+    except Exception as e:
+        return bad("impl!=spec:map_query-raises", dict(detail, error=repr(e)[:300]), key=key, tags=tags)
+    if set(map(repr, mp.keys())) != set(map(repr, Qn)):
+        return bad("impl!=spec:map_query-keys", detail, key=key, tags=tags)
+    idx = 0
+    for v in Q:
+        got = mp[names[v]]
+        pos = [i for i, s in enumerate(sts[v]) if s == got and type(s) is type(got)]
+        if not pos:
+            # numpy/torch integer scalars for integer state names are accepted when they equal the name
+            pos = [i for i, s in enumerate(sts[v]) if not isinstance(s, (str, bool)) and not isinstance(got, (str, bool))
+                   and hasattr(got, "__index__") and s == int(got)]
+        if not pos:
+            return bad("impl!=spec:map_query-state-name", dict(detail, var=v, got=repr(got)), key=key, tags=tags)
+        idx = idx * cards[v] + pos[0]
+    best = max(bnorm)
+    if float(bnorm[idx]) < float(best) * (1 - 1e-9):
+        return bad("impl!=spec:map_query-not-maximal", dict(detail, got=float(bnorm[idx]), best=float(best)),
+                   key=key, tags=tags)
+    return None
+
+
+def virtual_check(bp, cx, rng, label="", use_map=False):
+    """query with virtual evidence (TabularCPD or single-variable DiscreteFactor) on the given engine"""
+    from pgmpy.factors.discrete import TabularCPD, DiscreteFactor
+    names, sts, sbn, cards, joint, key, tags, n = cx.names, cx.sts, cx.sbn, cx.cards, cx.joint, cx.key, cx.tags, cx.n
+    allv = list(range(n))
+    if n < 2:
+        return None
+    k = rng.randint(1, min(2, n - 1))
+    V = rng.sample(allv, k)
+    rest = [v for v in allv if v not in V]
+    Q = rng.sample(rest, rng.randint(1, min(2, len(rest))))
+    rest2 = [v for v in rest if v not in Q]
+    E = rng.sample(rest2, rng.randint(0, min(1, len(rest2))))
+    pos = [a for a, p in joint.items() if p > 0]
+    if not pos:
+        return None
+    full = rng.choice(pos)
+    ev = {v: full[v] for v in E}
+    weights = {v: [Fraction(rng.randint(1, 8), 8) for _ in range(cards[v])] for v in V}
+    vev = []
+    for v in V:
+        if rng.random() < 0.5:
+            vev.append(TabularCPD(names[v], cards[v], [[float(w)] for w in weights[v]], state_names={names[v]: sts[v]}))
+        else:
+            vev.append(DiscreteFactor([names[v]], [cards[v]], [float(w) for w in weights[v]],
+                                      state_names={names[v]: sts[v]}))
+    vsnap = [table(f if isinstance(f, DiscreteFactor) and not isinstance(f, TabularCPD) else f.to_factor(),
+                   [f.variables[0]], sbn) for f in vev]
+    Qn = [names[v] for v in Q]
+    evn = {names[v]: sts[v][s] for v, s in ev.items()}
+    detail = {"Q": Q, "evidence": {str(v): s for v, s in ev.items()}, "at": label,
+              "virtual": {str(v): [float(w) for w in weights[v]] for v in V}}
+    bnorm = normalise(brute_table(joint, cards, Q, ev=ev, weights=weights))
+    if bnorm is None:
+        return None
+    evarg = dict(evn)
+    try:
+        if use_map:
+            mp = bp.map_query(list(Qn), evidence=evarg, virtual_evidence=vev, show_progress=False)
+        else:
+            res = bp.query(list(Qn), evidence=evarg, virtual_evidence=vev, joint=True, show_progress=False)
+            it = table(res, Qn, sbn)
+    except StateNameMismatch as e:
+        return bad("impl!=spec:result-state-names", dict(detail, error=str(e)), key=key, tags=tags)
+    except Exception as e:
+        return bad("impl!=spec:virtual-evidence-query-raises", dict(detail, error=repr(e)[:300]), key=key, tags=tags)
+    if evarg != evn:
+        return bad("impl!=spec:query-mutates-its-arguments", dict(detail, evidence=repr(evarg)), key=key, tags=tags)
+    vafter = [table(f if isinstance(f, DiscreteFactor) and not isinstance(f, TabularCPD) else f.to_factor(),
+                    [f.variables[0]], sbn) for f in vev]
+    if vafter != vsnap:
+        return bad("impl!=spec:query-mutates-its-arguments", dict(detail, what="virtual_evidence"), key=key, tags=tags)
+    if sorted(map(repr, bp.model.nodes())) != sorted(map(repr, names)):
+        return bad("impl!=spec:engine-model-not-restored", dict(detail, nodes=sorted(map(repr, bp.model.nodes()))),
+                   key=key, tags=tags)
+    if use_map:
+        idx = 0
+        for v in Q:
+            pos_ = [i for i, s in enumerate(sts[v]) if s == mp.get(names[v], object()) and type(s) is type(mp[names[v]])]
+            if not pos_:
+                pos_ = [i for i, s in enumerate(sts[v]) if not isinstance(s, (str, bool)) and names[v] in mp
+                        and not isinstance(mp[names[v]], (str, bool)) and hasattr(mp[names[v]], "__index__")
+                        and s == int(mp[names[v]])]
+            if not pos_:
+                return bad("impl!=spec:map_query-state-name", dict(detail, var=v, got=repr(mp.get(names[v]))), key=key, tags=tags)
+            idx = idx * cards[v] + pos_[0]
+        if float(bnorm[idx]) < float(max(bnorm)) * (1 - 1e-9):
+            return bad("impl!=spec:map_query-not-maximal", dict(detail, got=float(bnorm[idx])), key=key, tags=tags)
+    elif not close_tab(it, bnorm):
+        return bad("impl!=spec:virtual-evidence-query", dict(detail, impl=it, brute=[float(x) for x in bnorm]),
+                   key=key, tags=tags)
+    return None
+
+
+def reject_checks(bp, cx, rng, case):
+    """calls that must be refused; after each, the same engine still answers a valid query correctly"""
+    from pgmpy.factors.discrete import TabularCPD
+    names, sts, cards, key, tags, n = cx.names, cx.sts, cx.cards, cx.key, cx.tags, cx.n
+    allv = list(range(n))
+    # two variables that share a factor (for a BN: an edge), so that no pruning can drop the evidence
+    pairs = [(fd["scope"][0], w) for fd in case["factors"] for w in fd["scope"][1:]]
+    if not pairs:
+        return None
+    nodes0 = sorted(map(repr, bp.model.nodes()))
+    a, b = rng.choice(pairs)
+    if rng.random() < 0.5:
+        a, b = b, a
+    attempts = []
+    attempts.append(("overlap", lambda: bp.query([names[a], names[b]], evidence={names[a]: sts[a][0]}, show_progress=False)))
+    attempts.append(("unknown-state", lambda: bp.query([names[a]], evidence={names[b]: "no such state"}, show_progress=False)))
+    attempts.append(("state-number-out-of-range", lambda: bp.query([names[a]], evidence={names[b]: 1000003}, show_progress=False)))
+    if cx.kind == "bn":
+        attempts.append(("unknown-variable", lambda: bp.query([names[a]], evidence={"no such variable": 0}, show_progress=False)))
+        wrong = TabularCPD(names[b], cards[b] + 1, [[0.5]] * (cards[b] + 1))
+        others = [v for v in allv if v not in (a, b)]
+        if others:       # the invalid item comes LAST in the list
+            good = TabularCPD(names[others[0]], cards[others[0]], [[0.5]] * cards[others[0]],
+                              state_names={names[others[0]]: sts[others[0]]})
+            vev = [good, wrong]
+        else:
+            vev = [wrong]
+        attempts.append(("virtual-evidence-cardinality",
+                         lambda: bp.query([names[a]], virtual_evidence=vev, show_progress=False)))
+    for what, call in attempts:
+        try:
+            call()
+            return bad("impl!=spec:invalid-call-accepted", {"what": what, "a": a, "b": b}, key=key, tags=tags)
+        except (ValueError, KeyError, IndexError, TypeError):
+            pass
+        if sorted(map(repr, bp.model.nodes())) != nodes0:
+            # (repaired by c16cea0: a query that raised inside _query used to leave the engine with the PRUNED
+            #  Bayesian network as its model)
+            return bad("impl!=spec:engine-model-changed-by-rejected-call",
+                       {"what": what, "nodes": sorted(map(repr, bp.model.nodes())), "a": a, "b": b}, key=key, tags=tags)
+        r = query_check(bp, cx, [a], {b: rng.randrange(cards[b])}, True, label="after rejected " + what, model_side=False)
+        if r is not None and r != "zero":
+            return r
+    tags.append("rejected calls")
+    return None
+
+
+def run_reject_case(case, drv):
+    """models the constructor must refuse"""
+    from pgmpy.models import BayesianNetwork, MarkovNetwork
+    from pgmpy.factors.discrete import TabularCPD, DiscreteFactor
+    from pgmpy.inference import BeliefPropagation
+    what = case["what"]
+    names = var_names(case)
+    key = common.canon_key(["reject", what, case["vstyle"], case.get("hashseed")])
+    tags = ["kind=reject", "reject=" + what]
+    if what == "disc-bn":
+        m = BayesianNetwork()
+        m.add_nodes_from(names)
+        m.add_edge(names[0], names[1])
+        m.add_cpds(TabularCPD(names[0], 2, [[0.25], [0.75]]),
+                   TabularCPD(names[1], 2, [[0.25, 0.5], [0.75, 0.5]], evidence=[names[0]], evidence_card=[2]),
+                   TabularCPD(names[2], 2, [[0.5], [0.5]]))
+    elif what == "disc-mn":
+        m = MarkovNetwork()
+        m.add_edge(names[0], names[1])
+        m.add_edge(names[2], names[3])
+        m.add_factors(DiscreteFactor([names[0], names[1]], [2, 2], [1, 2, 3, 4]),
+                      DiscreteFactor([names[2], names[3]], [2, 2], [1, 2, 3, 4]))
+    else:
+        m = BayesianNetwork()
+        m.add_edge(names[0], names[1])
+        m.add_cpds(TabularCPD(names[0], 2, [[0.25], [0.75]], state_names={names[0]: ["x", "y"]}),
+                   TabularCPD(names[1], 2, [[0.25, 0.5], [0.75, 0.5]], evidence=[names[0]], evidence_card=[2],
+                              state_names={names[0]: ["y", "x"], names[1]: ["u", "v"]}))
+    try:
+        bp = BeliefPropagation(m)
+        bp.calibrate()
+        bp.query([names[1]], show_progress=False)
+    except ValueError:
+        return ok(nontrivial=True, key=key, tags=tags)
+    return bad("impl!=spec:invalid-model-accepted", {"what": what}, key=key, tags=tags)
+
+
+def edited_case(case, rng):
+    """an edit of the model through its own mutators, with the case description of the edited model"""
+    kind = case["kind"]
+    c = dict(case)
+    c["factors"] = [dict(f) for f in case["factors"]]
+    cards = case["cards"]
+    if kind == "bn":
+        children = {a for a, b in case["edges"]}
+        leaves = []
+        for v in range(case["n"]):
+            if v in children:
+                continue
+            keep = [x for x in range(case["n"]) if x != v]
+            ren = {x: i for i, x in enumerate(keep)}
+            if connected(len(keep), [(ren[a], ren[b]) for a, b in case["edges"] if a != v and b != v]):
+                leaves.append(v)
+        if case["n"] >= 3 and leaves and rng.random() < 0.4:
+            return None, ("remove_leaf", rng.choice(leaves))     # handled by the caller (renumbering not needed: brute force by name)
+        i = rng.randrange(len(c["factors"]))
+        fd = c["factors"][i]
+        v, pa = fd["scope"][0], fd["scope"][1:]
+        ncol = 1
+        for p in pa:
+            ncol *= cards[p]
+        cols = [common.rand_column(rng, cards[v], zeros=False) for _ in range(ncol)]
+        fd["values"] = [F2(cols[col][s]) for s in range(cards[v]) for col in range(ncol)]
+        return c, ("replace", i)
+    i = rng.randrange(len(c["factors"]))
+    fd = c["factors"][i]
+    fd["values"] = [F2(x) for x in rand_table(rng, len(fd["values"]), False)]
+    return c, ("replace", i)
+
+
+def session_checks(bp, m, cx, case, rng, ve):
+    """one engine, many calls; edits of the model through its mutators followed by a NEW engine; the old engine,
+    which has already answered queries, keeps answering for the model it was built from"""
+    from pgmpy.inference import BeliefPropagation
+    from pgmpy.factors.discrete import TabularCPD, DiscreteFactor
+    n, cards, names, sts, kind = cx.n, cx.cards, cx.names, cx.sts, cx.kind
+    allv = list(range(n))
+
+    def rand_query():
+        k = rng.randint(1, min(2, n))
+        Q = rng.sample(allv, k)
+        rest = [v for v in allv if v not in Q]
+        E = rng.sample(rest, rng.randint(0, min(2, len(rest))))
+        pos = [a for a, p in cx.joint.items() if p > 0]
+        full = rng.choice(pos) if pos else tuple(rng.randrange(c) for c in cards)
+        return Q, {v: full[v] for v in E}
+
+    # (1) interleaved calls on the engine that has already been used
+    ops = ["max_calibrate", "query", "calibrate", "query", "map", "max_calibrate", "query", "virtual", "query"]
+    rng.shuffle(ops)
+    for step, op in enumerate(ops[:5]):
+        lab = "session step %d %s" % (step, op)
+        if op == "calibrate":
+            r, _ = cal_check(bp, cx, ops=(("sum", "c02_calibrate", "calibrate"),), label=lab)
+        elif op == "max_calibrate":
+            r, _ = cal_check(bp, cx, ops=(("max", "c02_max_calibrate", "max_calibrate"),), label=lab)
+        elif op == "query":
+            Q, ev = rand_query()
+            r = query_check(bp, cx, Q, ev, rng.random() < 0.7, label=lab, model_side=False)
+        elif op == "map":
+            Q, ev = rand_query()
+            r = map_check(bp, cx, Q, ev, label=lab)
+        else:
+            r = virtual_check(bp, cx, rng, label=lab) if kind == "bn" else None
+        if r is not None and r != "zero":
+            return r
+    # (2) the result is the caller's: changing it changes nothing else; two results are two objects
+    Q, ev = rand_query()
+    Qn = [names[v] for v in Q]
+    evn = {names[v]: sts[v][s] for v, s in ev.items()}
+    if normalise(brute_table(cx.joint, cards, Q, ev=ev)) is not None:
+        r1 = bp.query(list(Qn), evidence=dict(evn), show_progress=False)
+        try:
+            r1.values[...] = 0
+        except Exception:
+            pass
+        for var in list(r1.state_names):
+            r1.state_names[var] = list(reversed(r1.state_names[var]))
+        r2 = bp.query(list(Qn), evidence=dict(evn), show_progress=False)
+        if r2 is r1:
+            return bad("impl!=spec:same-result-object-twice", {"Q": Q}, key=cx.key, tags=cx.tags)
+        r = query_check(bp, cx, Q, ev, True, label="after mutating the previous result", model_side=False)
+        if r is not None and r != "zero":
+            return r
+    # beliefs handed out by the engine are not the model's own potentials: overwrite them, the model is unchanged
+    snap = snapshot(m, kind, cx.sbn)
+    bp.calibrate()
+    for f in bp.get_clique_beliefs().values():
+        try:
+            f.values[...] = 7
+        except Exception:
+            pass
+    if snapshot(m, kind, cx.sbn) != snap:
+        return bad("impl!=spec:beliefs-alias-the-model", {}, key=cx.key, tags=cx.tags)
+    r, _ = cal_check(bp, cx, ops=(("sum", "c02_calibrate", "calibrate"),), label="recalibrate after overwriting beliefs")
+    if r is not None:
+        return r
+    cx.tags.append("session: interleaved calls, result independence")
+    # (3) edit the model through its mutators, then a NEW engine = the freshly built edited model
+    if kind in ("bn", "mn", "jt") and cx.rip:
+        c2, how = edited_case(case, rng)
+        if how[0] == "remove_leaf":
+            leaf = how[1]
+            m.remove_node(names[leaf])
+            joint2 = {}
+            for asg, p in cx.joint.items():
+                k2 = tuple(x if i != leaf else 0 for i, x in enumerate(asg))
+                joint2[k2] = joint2.get(k2, Fraction(0)) + p
+            cx2 = Ctx()
+            cx2.__dict__.update(cx.__dict__)
+            cx2.joint = joint2
+            cx2.cards = list(cards)
+            cx2.cards[leaf] = 1      # the removed variable is a dummy with one state for the brute force / model
+            live = [v for v in allv if v != leaf]
+            bpn = BeliefPropagation(m)
+            # the model side needs the dummy too: only pgmpy-vs-brute-force here
+            for _ in range(3):
+                Q = rng.sample(live, 1)
+                rest = [v for v in live if v not in Q]
+                E = rng.sample(rest, rng.randint(0, min(2, len(rest))))
+                pos = [a for a, p in joint2.items() if p > 0]
+                if not pos:
+                    break
+                full = rng.choice(pos)
+                r = query_check(bpn, cx2, Q, {v: full[v] for v in E}, True, label="new engine after remove_node",
+                                model_side=False)
+                if r is not None and r != "zero":
+                    return r
+            cx.tags.append("session: remove_node then new engine")
+        else:
+            i = how[1]
+            fd = c2["factors"][i]
+            vals = [float(Fraction(a, b)) for a, b in fd["values"]]
+            sc = fd["scope"]
+            if kind == "bn":
+                import numpy as np
+                v, pa = sc[0], sc[1:]
+                m.add_cpds(TabularCPD(names[v], cards[v], np.array(vals).reshape(cards[v], -1),
+                                      evidence=[names[p] for p in pa] or None,
+                                      evidence_card=[cards[p] for p in pa] or None,
+                                      state_names={names[x]: sts[x] for x in sc}))
+            else:
+                old = None
+                want = table_of_case(case["factors"][i], cx)
+                for f in m.get_factors():
+                    if list(map(repr, f.variables)) == [repr(names[v]) for v in sc] and \
+                            table(f, list(f.variables), cx.sbn) == want:
+                        old = f
+                        break
+                if old is None:
+                    return bad("harness:factor-not-found", {}, key=cx.key, tags=cx.tags)
+                m.remove_factors(old)
+                m.add_factors(DiscreteFactor([names[v] for v in sc], [cards[v] for v in sc], vals,
+                                             state_names={names[v]: sts[v] for v in sc}))
+            cx2 = Ctx()
+            cx2.__dict__.update(cx.__dict__)
+            cx2.joint = brute_joint(c2)
+            bpn = BeliefPropagation(m)
+            r, _ = cal_check(bpn, cx2, label="new engine after editing the model")
+            if r is not None:
+                return r
+            for _ in range(3):
+                Q, ev = rand_query()
+                pos = [a for a, p in cx2.joint.items() if p > 0]
+                full = rng.choice(pos) if pos else tuple(rng.randrange(c) for c in cards)
+                ev = {v: full[v] for v in ev}
+                r = query_check(bpn, cx2, Q, ev, True, label="new engine after editing the model")
+                if r is not None and r != "zero":
+                    return r
+            # the old engine has answered queries before the edit: it keeps the model it was built from
+            for _ in range(2):
+                Q, ev = rand_query()
+                r = query_check(bp, cx, Q, ev, True, label="old engine after the model was edited", model_side=False)
+                if r is not None and r != "zero":
+                    return r
+            cx.tags.append("session: edit (add_cpds / remove_factors+add_factors) then new engine")
+    return None
+
+
+def table_of_case(fd, cx):
+    return [float(Fraction(a, b)) for a, b in fd["values"]]
+
+
+def heuristic_checks(case, cx, rng):
+    """every triangulation heuristic and an explicit elimination order: triangulate the interaction graph in place
+    (or out of place, re-attaching the factors), then belief propagation on the result"""
+    from pgmpy.inference import BeliefPropagation
+    from pgmpy.models import MarkovNetwork
+    m2, _, _, _ = build(case)
+    mm = m2 if case["kind"] == "mn" else m2.to_markov_model()
+    if mm.is_triangulated():
+        cx.tags.append("heuristics: graph already chordal")
+        return None
+    for h in case["heur"]:
+        m3, _, _, _ = build(case)
+        mm = m3 if case["kind"] == "mn" else m3.to_markov_model()
+        kw = {}
+        if h == "order":
+            order = list(mm.nodes())
+            rng.shuffle(order)
+            kw["order"] = order
+        else:
+            kw["heuristic"] = h
+        if rng.random() < 0.5:
+            mm.triangulate(inplace=True, **kw)
+            tri = mm
+        else:
+            g = mm.triangulate(inplace=False, **kw)
+            tri = MarkovNetwork()
+            tri.add_nodes_from(mm.nodes())
+            tri.add_edges_from(g.edges())
+            tri.add_factors(*[f.copy() for f in mm.get_factors()])
+        if not tri.is_triangulated():
+            return bad("impl!=spec:triangulate-not-chordal", {"heuristic": h, "order": [repr(x) for x in kw.get("order", [])]},
+                       key=cx.key, tags=cx.tags)
+        bp = BeliefPropagation(tri)
+        r, _ = cal_check(bp, cx, ops=(("sum", "c02_calibrate", "calibrate"),), label="triangulate " + h)
+        if r is not None:
+            return r
+        Q = rng.sample(range(cx.n), 1)
+        rest = [v for v in range(cx.n) if v not in Q]
+        E = rng.sample(rest, min(2, len(rest)))
+        pos = [a for a, p in cx.joint.items() if p > 0]
+        full = rng.choice(pos) if pos else tuple(0 for _ in cx.cards)
+        r = query_check(bp, cx, Q, {v: full[v] for v in E}, True, label="triangulate " + h)
+        if r is not None and r != "zero":
+            return r
+        cx.tags.append("triangulate " + h)
+    return None
+
+
+def jt_guard_checks(m, cx, case, rng):
+    """JunctionTree.add_edge refuses an edge that closes a cycle and an edge between disjoint cliques, and leaves
+    the tree as it was"""
+    nodes0 = sorted(map(repr, m.nodes()))
+    edges0 = sorted(tuple(sorted((repr(a), repr(b)))) for a, b in m.edges())
+    cl = list(m.nodes())
+    tried = 0
+    for a in cl:
+        for b in cl:
+            if a is b or m.has_edge(a, b):
+                continue
+            if set(a) & set(b):      # in a tree every further edge closes a cycle
+                try:
+                    m.add_edge(a, b)
+                    return bad("impl!=spec:invalid-call-accepted", {"what": "add_edge closing a cycle"}, key=cx.key, tags=cx.tags)
+                except ValueError:
+                    tried += 1
+            else:
+                try:
+                    m.add_edge(a, b)
+                    return bad("impl!=spec:invalid-call-accepted", {"what": "add_edge between disjoint cliques"},
+                               key=cx.key, tags=cx.tags)
+                except ValueError:
+                    tried += 1
+            if tried >= 3:
+                break
+        if tried >= 3:
+            break
+    try:
+        m.add_edge(cl[0], ("no such variable 1", "no such variable 2"))
+        return bad("impl!=spec:invalid-call-accepted", {"what": "add_edge to a disjoint new clique"}, key=cx.key, tags=cx.tags)
+    except ValueError:
+        pass
+    if sorted(map(repr, m.nodes())) != nodes0 or sorted(tuple(sorted((repr(a), repr(b)))) for a, b in m.edges()) != edges0:
+        return bad("impl!=spec:rejected-add_edge-changed-the-tree", {}, key=cx.key, tags=cx.tags)
+    cx.tags.append("add_edge guards")
+    return None
+
+
+def tiny_sepset(case):
+    """diagnosing predicate of finding bp-converged-absolute-tolerance: the case is a scaled one and some pair of
+    variable sets that can be a sepset (here: any single variable or pair inside a factor scope) has an exact
+    marginal entirely below 1e-6, so that numpy.allclose's absolute tolerance 1e-8 decides _is_converged"""
+    if not case.get("scaled"):
+        return False
+    joint = brute_joint(case)
+    cards = case["cards"]
+    for v in range(case["n"]):
+        for op in ("sum", "max"):
+            if max(brute_table(joint, cards, [v], op=op)) < Fraction(1, 10 ** 6):
+                return True
+    return False
+
+
 def run_case(case, drv):
+    set_backend(case)
+    try:
+        if case["kind"] == "reject":
+            return run_reject_case(case, drv)
+        out = run_model_case(case, drv)
+        if (not out["ok"]) and out.get("finding") is None and out.get("kind", "").startswith("impl!=") \
+                and tiny_sepset(case):
+            out["finding"] = "bp-converged-absolute-tolerance"
+        return out
+    finally:
+        if case.get("backend") == "torch":
+            from pgmpy import config
+            config.set_backend("numpy")
+
+
+def run_model_case(case, drv):
     from pgmpy.inference import BeliefPropagation, VariableElimination
     m, names, sts, sbn = build(case)
     n = case["n"]
@@ -462,92 +1295,40 @@ def run_case(case, drv):
     kind = case["kind"]
     vid = {names[v]: v for v in range(n)}
     rng = random.Random(case["qseed"])
-    tags = ["kind=" + kind, "n=%d" % n, "states=" + case["sstyle"], "names=" + case["vstyle"]]
+    tags = ["kind=" + kind, "n=%d" % n, "states=" + case["sstyle"], "names=" + case["vstyle"],
+            "backend=" + case.get("backend", "numpy")]
     key = common.canon_key([kind, n, cards, case.get("edges"), case.get("cliques"), case.get("tedges"),
-                            case["factors"], case["vstyle"], case["sstyle"], case.get("hashseed")])
+                            case["factors"], case["vstyle"], case["sstyle"], case.get("hashseed"), case.get("backend")])
     rip = case.get("rip", True)
     if case.get("multi"):
         tags.append("several factors on one clique")
         if len({(tuple(sorted(f["scope"])), tuple(map(tuple, f["values"])), tuple(f["scope"])) for f in case["factors"]}) < len(case["factors"]):
             tags.append("equal factors on one clique")
-    joint = brute_joint(case)
+    if case.get("scaled"):
+        tags.append("magnitudes: factors scaled by 2^e, |e|<=80, one state damped by 2^-40")
+    if case.get("wide"):
+        tags.append("9-variable factor")
+    if 1 in cards:
+        tags.append("cardinality-1 variable")
+    cx = Ctx()
+    cx.names, cx.sts, cx.sbn, cx.vid, cx.cards, cx.n, cx.kind = names, sts, sbn, vid, cards, n, kind
+    cx.joint = brute_joint(case)
+    cx.key, cx.tags, cx.rip, cx.drv = key, tags, rip, drv
+    joint = cx.joint
+    snap0 = snapshot(m, kind, sbn)
+
+    if kind == "jt":
+        r = jt_guard_checks(m, cx, case, rng)
+        if r is not None:
+            return r
 
     bp = BeliefPropagation(m)
-    try:
-        cliques, edges, adj, pots = extract_tree(bp.junction_tree, vid, sbn)
-    except StateNameMismatch as e:
-        return bad("impl!=spec:clique-potential-state-names", {"error": str(e)}, key=key, tags=tags)
+    r, cliques = cal_check(bp, cx)
+    if r is not None:
+        return r
     ncl = len(cliques)
     tags += ["cliques=%d" % ncl, "maxclique=%d" % max(len(c) for c in cliques)]
-    req = [cards, [[vid[v] for v in c] for c in cliques], edges, adj, pots]
     multi = sum(1 for v in range(n) if sum(1 for c in cliques if names[v] in c) >= 2)
-
-    # ---- calibration, both operations
-    for op, entry, meth in (("sum", "c02_calibrate", "calibrate"), ("max", "c02_max_calibrate", "max_calibrate")):
-        rep = drv.call(entry, req)
-        jt_ok, sched_ok, conv, mbel, msep, bbel, bsep = rep
-        if not sched_ok:
-            return bad("checker:sched_chk", {"cliques": req[1], "edges": edges, "adj": adj}, key=key, tags=tags)
-        if bool(jt_ok) != bool(rip):
-            return bad("checker:jt_chk", {"jt_chk": jt_ok, "expected": rip, "cliques": req[1], "edges": edges},
-                       key=key, tags=tags)
-        getattr(bp, meth)()
-        cb = bp.get_clique_beliefs()
-        sb = bp.get_sepset_beliefs()
-        if set(cb.keys()) != set(cliques):
-            return bad("impl!=model:clique-belief-keys", {"impl": [list(c) for c in cb.keys()]}, key=key, tags=tags)
-        for i, c in enumerate(cliques):
-            try:
-                it = table(cb[c], list(c), sbn)
-            except StateNameMismatch as e:
-                return bad("impl!=spec:belief-scope-or-state-names", {"op": op, "clique": i, "error": str(e)}, key=key, tags=tags)
-            mt = fr(mbel[i])
-            if not close_tab(it, mt):
-                return bad("impl!=model:clique-belief", {"op": op, "clique": [vid[v] for v in c], "impl": it,
-                                                           "model": [float(x) for x in mt]}, key=key, tags=tags)
-            if rip:
-                bt = fr(bbel[i])
-                pt = brute_table(joint, cards, [vid[v] for v in c], op=op)
-                if bt != pt:
-                    return bad("impl!=spec:clique-potentials-product", {"op": op, "clique": [vid[v] for v in c]},
-                               key=key, tags=tags)
-                if mt != bt:
-                    return bad("model!=spec:clique-belief-not-marginal", {"op": op, "clique": [vid[v] for v in c],
-                               "model": [float(x) for x in mt], "brute": [float(x) for x in bt]}, key=key, tags=tags)
-                if not close_tab(it, bt):
-                    return bad("impl!=spec:clique-belief-not-marginal", {"op": op, "clique": [vid[v] for v in c],
-                               "impl": it, "brute": [float(x) for x in bt]}, key=key, tags=tags)
-        if rip and not conv:
-            return bad("model!=spec:not-converged", {"op": op}, key=key, tags=tags)
-        if len(sb) != len(edges):
-            return bad("impl!=model:sepset-keys", {"impl": len(sb), "model": len(edges)}, key=key, tags=tags)
-        for k, (i, j) in enumerate(edges):
-            S, mu = msep[k]
-            skey = frozenset([cliques[i], cliques[j]])
-            if skey not in sb or sb[skey] is None or not mu:
-                return bad("impl!=model:sepset-missing", {"op": op, "edge": [i, j]}, key=key, tags=tags)
-            Sn = [names[v] for v in S]
-            if set(Sn) != set(cliques[i]) & set(cliques[j]):
-                return bad("model-inconsistent:sepset-scope", {"edge": [i, j]}, key=key, tags=tags)
-            try:
-                it = table(sb[skey], Sn, sbn)
-            except StateNameMismatch as e:
-                return bad("impl!=spec:sepset-scope-or-state-names", {"op": op, "edge": [i, j], "error": str(e)},
-                           key=key, tags=tags)
-            mt = fr(mu[0])
-            if not close_tab(it, mt):
-                return bad("impl!=model:sepset-belief", {"op": op, "edge": [i, j], "impl": it,
-                                                           "model": [float(x) for x in mt]}, key=key, tags=tags)
-            if rip and mt != fr(bsep[k]):
-                return bad("model!=spec:sepset-belief-not-marginal", {"op": op, "edge": [i, j]}, key=key, tags=tags)
-            # neighbours agree on the sepset (pgmpy's own marginalisation of both clique beliefs)
-            oper = "marginalize" if op == "sum" else "maximize"
-            for c in (cliques[i], cliques[j]):
-                mg = getattr(cb[c], oper)([v for v in c if v not in Sn], inplace=False)
-                if not close_tab(table(mg, Sn, sbn), mt if rip else table(sb[skey], Sn, sbn)):
-                    if rip:
-                        return bad("impl!=spec:neighbours-disagree-on-sepset", {"op": op, "edge": [i, j]},
-                                   key=key, tags=tags)
     if not rip:
         tags.append("non-RIP tree: model==pgmpy only")
         return ok(nontrivial=True, key=key, tags=tags)
@@ -565,141 +1346,105 @@ def run_case(case, drv):
         if len(qs) > 40:
             qs = rng.sample(qs, 40)
     else:
-        for _ in range(10):
+        for _ in range(3 if case.get("wide") else 10):
             k = rng.randint(1, min(3, n))
             Q = rng.sample(allv, k)
             rest = [v for v in allv if v not in Q]
             E = rng.sample(rest, rng.randint(0, min(3, len(rest))))
             qs.append((Q, E))
         tags.append("queries=sample")
+        # one variable private to each of (up to) three leaf cliques: the subtree must join >= 3 cliques
+        deg = {c: 0 for c in cliques}
+        for a, b in bp.junction_tree.edges():
+            deg[tuple(a)] += 1
+            deg[tuple(b)] += 1
+        priv = []
+        for c in cliques:
+            if deg[c] == 1:
+                own = [v for v in c if sum(1 for d in cliques if v in d) == 1]
+                if own:
+                    priv.append(vid[own[0]])
+        if len(priv) >= 3:
+            sel = rng.sample(priv, 3)
+            qs.append((sel[:2], sel[2:]))
+            qs.append((sel, []))
+            tags.append("query joining >=3 leaf cliques")
     # reference VE: VariableElimination(FactorGraph).query raises AttributeError ('states') in the default
     # greedy path (observation reported to C01), so factor graphs are referred to their Markov network
     ve = VariableElimination(m.to_markov_model() if kind == "fg" else m)
     n_ev = 0
     n_multi_ev = 0
+    pos = [a for a, p in joint.items() if p > 0]
     for qi, (Q, E) in enumerate(qs):
-        # evidence values: prefer a configuration of positive probability
         full = None
-        pos = [a for a, p in joint.items() if p > 0]
         if pos and rng.random() < 0.9:
             full = rng.choice(pos)
         ev = {v: (full[v] if full else rng.randrange(cards[v])) for v in E}
         jointflag = (qi % 3 != 2)
+        Q = list(Q)
         rng.shuffle(Q)
-        Qn = [names[v] for v in Q]
-        evn = {names[v]: sts[v][s] for v, s in ev.items()}
-        detail = {"Q": Q, "evidence": {str(v): s for v, s in ev.items()}, "joint": jointflag}
-        bt = brute_table(joint, cards, Q, ev=ev)
-        bnorm = normalise(bt)
-        try:
-            cl2, ed2, adj2, pots2 = extract_tree(bp.junction_tree, vid, sbn)
-        except StateNameMismatch as e:
-            return bad("impl!=spec:clique-potential-state-names", {"error": str(e)}, key=key, tags=tags)
-        req2 = [cards, [[vid[v] for v in c] for c in cl2], ed2, adj2, pots2, Q, [[v, s] for v, s in ev.items()]]
-        cert, mtab, mper, mbrute, msub = drv.call("c02_query", req2)
-        mtab = fr(mtab)
-        if not cert:
-            return bad("checker:query-certificate", dict(detail, sub=msub), key=key, tags=tags)
-        if fr(mbrute) != bt:
-            return bad("model-inconsistent:brute", detail, key=key, tags=tags)
-        if mtab != bt:
-            return bad("model!=spec:query", dict(detail, model=[float(x) for x in mtab], brute=[float(x) for x in bt]),
-                       key=key, tags=tags)
-        if bnorm is None:
+        r = query_check(bp, cx, Q, ev, jointflag, ve=ve, label="query %d" % qi, evidence_none=(qi % 2 == 1))
+        if r == "zero":
             tags.append("zero-probability evidence (not compared)")
             continue
+        if r is not None:
+            return r
         if E:
             n_ev += 1
             if any(sum(1 for c in cliques if names[v] in c) >= 2 for v in E):
                 n_multi_ev += 1
-        try:
-            res = bp.query(Qn, evidence=dict(evn), joint=jointflag, show_progress=False)
-        except Exception as e:  # every query with evidence by name must succeed
-            return bad("impl!=spec:query-raises", dict(detail, error=repr(e)[:300]), key=key, tags=tags)
-        try:
-            if jointflag:
-                vres = ve.query(Qn, evidence=dict(evn), joint=True, show_progress=False)
-                vt = normalise([Fraction(x) for x in table(vres, Qn, sbn)])
-                it = table(res, Qn, sbn)
-                if not close_tab(it, bnorm):
-                    return bad("impl!=spec:query", dict(detail, impl=it, brute=[float(x) for x in bnorm]),
-                               key=key, tags=tags)
-                if vt is None or not close_tab(it, vt):
-                    return bad("impl!=VE:query", dict(detail, impl=it), key=key, tags=tags)
-            else:
-                if set(res.keys()) != set(Qn):
-                    return bad("impl!=spec:query-keys", detail, key=key, tags=tags)
-                for pos_, v in enumerate(Q):
-                    it = table(res[names[v]], [names[v]], sbn)
-                    b1 = normalise(brute_table(joint, cards, [v], ev=ev))
-                    m1 = normalise(fr(mper[pos_]))
-                    if m1 != b1:
-                        return bad("model!=spec:query-marginal", dict(detail, var=v), key=key, tags=tags)
-                    if not close_tab(it, b1):
-                        return bad("impl!=spec:query-marginal", dict(detail, var=v, impl=it,
-                                                                      brute=[float(x) for x in b1]), key=key, tags=tags)
-        except StateNameMismatch as e:
-            return bad("impl!=spec:result-state-names", dict(detail, error=str(e)), key=key, tags=tags)
         tags.append("joint=%s" % jointflag)
         tags.append("evidence=%d" % len(E))
-
-        # map_query on the same (Q, E) for some of them
         if qi % 4 == 0:
-            try:
-                mp = bp.map_query(Qn, evidence=dict(evn), show_progress=False)
-            except Exception as e:
-                return bad("impl!=spec:map_query-raises", dict(detail, error=repr(e)[:300]), key=key, tags=tags)
-            if set(mp.keys()) != set(Qn):
-                return bad("impl!=spec:map_query-keys", detail, key=key, tags=tags)
-            idx = 0
-            for v in Q:
-                if mp[names[v]] not in sts[v] or type(mp[names[v]]) is not type(sts[v][sts[v].index(mp[names[v]])]):
-                    return bad("impl!=spec:map_query-state-name", dict(detail, var=v, got=repr(mp[names[v]])),
-                               key=key, tags=tags)
-                idx = idx * cards[v] + sts[v].index(mp[names[v]])
-            best = max(bnorm)
-            if float(bnorm[idx]) < float(best) - 1e-9:
-                return bad("impl!=spec:map_query-not-maximal", dict(detail, got=float(bnorm[idx]), best=float(best)),
-                           key=key, tags=tags)
+            r = map_check(bp, cx, Q, ev, label="query %d" % qi)
+            if r is not None:
+                return r
             tags.append("map_query")
+    # map_query() with the documented default variables=None (all variables), no evidence
+    if n <= 6 and kind not in ("fg", "jt"):
+        r = map_check(bp, cx, allv, {}, label="variables=None", variables_none=True)
+        if r is not None:
+            return r
+        tags.append("map_query(variables=None)")
 
-    # ---- virtual evidence (Bayesian networks)
+    # ---- virtual evidence (Bayesian networks): fresh engine, also through map_query
     if kind == "bn":
-        from pgmpy.factors.discrete import TabularCPD
-        for _ in range(2):
-            k = rng.randint(1, min(2, n - 1))
-            V = rng.sample(allv, k)
-            rest = [v for v in allv if v not in V]
-            Q = rng.sample(rest, rng.randint(1, min(2, len(rest))))
-            rest2 = [v for v in rest if v not in Q]
-            E = rng.sample(rest2, rng.randint(0, min(1, len(rest2))))
-            pos = [a for a, p in joint.items() if p > 0]
-            full = rng.choice(pos)
-            ev = {v: full[v] for v in E}
-            weights = {v: [Fraction(rng.randint(1, 8), 8) for _ in range(cards[v])] for v in V}
-            vev = [TabularCPD(names[v], cards[v], [[float(w)] for w in weights[v]], state_names={names[v]: sts[v]})
-                   for v in V]
-            Qn = [names[v] for v in Q]
-            evn = {names[v]: sts[v][s] for v, s in ev.items()}
-            detail = {"Q": Q, "evidence": {str(v): s for v, s in ev.items()}, "virtual": {str(v): [float(w) for w in weights[v]] for v in V}}
-            bnorm = normalise(brute_table(joint, cards, Q, ev=ev, weights=weights))
-            if bnorm is None:
-                continue
-            bp2 = BeliefPropagation(m)
-            try:
-                res = bp2.query(Qn, evidence=dict(evn), virtual_evidence=vev, joint=True, show_progress=False)
-                it = table(res, Qn, sbn)
-            except StateNameMismatch as e:
-                return bad("impl!=spec:result-state-names", dict(detail, error=str(e)), key=key, tags=tags)
-            except Exception as e:
-                return bad("impl!=spec:virtual-evidence-query-raises", dict(detail, error=repr(e)[:300]), key=key, tags=tags)
-            if not close_tab(it, bnorm):
-                return bad("impl!=spec:virtual-evidence-query", dict(detail, impl=it, brute=[float(x) for x in bnorm]),
-                           key=key, tags=tags)
+        for i in range(2):
+            r = virtual_check(BeliefPropagation(m), cx, rng, label="virtual %d" % i, use_map=(i == 1 and qi % 2 == 0))
+            if r is not None:
+                return r
             tags.append("virtual-evidence")
+
+    # nothing so far may have changed the caller's model
+    if snapshot(m, kind, sbn) != snap0:
+        return bad("impl!=spec:model-changed-by-inference", {}, key=key, tags=tags)
+
+    if case.get("heur") and kind in ("mn", "bn", "fg") and not case.get("wide") and n >= 4:
+        r = heuristic_checks(case, cx, rng)
+        if r is not None:
+            return r
+    if case.get("session") and not case.get("wide"):
+        r = session_checks(bp, m, cx, case, rng, ve)
+        if r is not None:
+            return r
 
     if multi:
         tags.append("variables in >=2 cliques")
     if n_multi_ev:
         tags.append("evidence on a variable in >=2 cliques")
+    # last, so that a diagnosed finding here masks nothing: calls that must be refused (fresh engine on a
+    # freshly built model: the session stream may have edited m)
+    m4, _, _, _ = build(case)
+    if kind in ("fg", "jt") and n <= 6:
+        # diagnosed class: the default variables=None becomes model.nodes(), which for a FactorGraph includes the
+        # factor nodes and for a JunctionTree are the cliques, not the variables
+        r = map_check(BeliefPropagation(m4), cx, allv, {}, label="variables=None", variables_none=True)
+        if r is not None:
+            if r.get("kind") == "impl!=spec:map_query-raises":
+                r["finding"] = "bp-map-query-default-variables-fg-jt"
+            return r
+        tags.append("map_query(variables=None)")
+    r = reject_checks(BeliefPropagation(m4), cx, rng, case)
+    if r is not None:
+        return r
     return ok(nontrivial=(ncl >= 2 and n_ev >= 1), key=key, tags=sorted(set(tags)))
